@@ -56,7 +56,7 @@ def scatterer(kind):
     return Cylinder(n=1.59, d=0.5, h=0.8, rotation=(0, 0.9, 1.1), center=c), None
 
 
-def detector(kind, pol_for_attrs=None):
+def detector(kind, pol_for_attrs=None, raise_by=1.7):
     if kind == "square":
         d = detector_grid(5, 0.3, name="sq")
     elif kind == "rect_aniso":
@@ -68,6 +68,12 @@ def detector(kind, pol_for_attrs=None):
         d = detector_grid((1, 7), 0.25, name="line")
     elif kind == "points":
         d = detector_points(x=np.array([0.1, 1.9, -0.6, 3.0]), y=np.array([0.4, 0.2, 2.2, -1.0]), z=0.0, name="pts")
+    elif kind == "pixel_subset":
+        from holopy.core.metadata import make_subset_data
+        d = make_subset_data(detector_grid((5, 4), 0.3, name="sub"), pixels=7, seed=3)
+    elif kind == "raised_plane":
+        d = detector_grid((4, 3), 0.3, name="raised")
+        d = d.assign_coords(z=d.z.values + raise_by)
     else:
         d = detector_grid(4, 0.3, name="two_colour", extra_dims={"illumination": ["green", "red"]})
     return d
@@ -167,6 +173,8 @@ def catalogue():
         # two T-matrix particles that differ in the absorption only
         lambda: calc_holo(det, Spheroid(n=1.5, r=(0.3, 0.5), rotation=(0, 0.6, 0.2), center=(1.0, 1.0, 9.0)), **kw),
         lambda: calc_holo(det, Spheroid(n=1.5 + 0.1j, r=(0.3, 0.5), rotation=(0, 0.6, 0.2), center=(1.0, 1.0, 9.0)), **kw),
+        # the same solver with another option set: no radial field component (entry 1 computes it)
+        lambda: calc_holo(det, Sphere(n=1.59, r=1.2, center=(1.0, 1.0, 2.5)), theory=Mie(False, True), **kw),
     ]
 
 
@@ -183,7 +191,7 @@ def run(ctx):
     ctx.rule = ("request: TLC enumerates ~27k compatible requests (7 scatterer/theory kinds x 6 detector "
                 "kinds x 5 polarisations x 4 scalings x 4^3 sources of the optics values) with the staged "
                 "outcome; a seeded sample covering every factor value is replayed (quick 260, thorough 4000); "
-                "history: all call sequences of length <= 3 over 11 stale-state configurations (1463); distinct = "
+                "history: all call sequences of length <= 3 over 12 stale-state configurations (1884); distinct = "
                 "request or sequence; non-trivial = request that reaches the field stage / sequence of >= 2")
     ctx.assumptions = ["fresh-process baselines are computed in child interpreters (lib/isolate.py)",
                        "byte identity is the oracle for history independence"]
@@ -226,7 +234,13 @@ def run(ctx):
             else:
                 ctx.trace_ok()
             continue
-        det = detector(rq["det"])
+        # the raised plane sits a whole number of medium wavelengths above z = 0: HoloPy's reference wave has
+        # its phase fixed at z = 0, so only then is "plane up" the same picture as "particle down"
+        RAISE = 1.7
+        if rq["det"] == "raised_plane" and want[0] == "hologram":
+            src_ = fin["attrs"]
+            RAISE = 3 * (WL if src_["illum_wavelen"] == "kw" else DET_WL) / (NMED if src_["medium_index"] == "kw" else DET_MI)
+        det = detector(rq["det"], raise_by=RAISE)
         multi = rq["det"] == "multichannel"
         polv = POL[rq["pol"]]
         alpha = ALPHA[rq["alpha"]]
@@ -280,7 +294,11 @@ def run(ctx):
                 if cname in det.coords and cname in det.dims:
                     if cname not in h.coords or not np.array_equal(h[cname].values, det[cname].values):
                         bad = ("coordinates", {"coord": cname})
-            if rq["det"] == "points":
+            if rq["det"] == "pixel_subset":
+                if h.dims != det.dims or h.shape != det.shape or not all(
+                        np.array_equal(np.asarray(h[c].values, dtype=float), np.asarray(det[c].values, dtype=float)) for c in ("x", "y", "z")):
+                    bad = ("subset_layout", {"impl_dims": list(h.dims), "impl_shape": list(h.shape), "det_shape": list(det.shape)})
+            elif rq["det"] == "points":
                 if h.shape != det.shape:
                     bad = ("shape", {"impl": h.shape, "det": det.shape})
                 elif not all(c in h.coords and np.array_equal(h[c].values, det[c].values) for c in ("x", "y", "z")):
@@ -326,19 +344,28 @@ def run(ctx):
                 if "flat" in want_h.dims and "flat" not in h.dims:
                     want_h = want_h.unstack("flat") if hasattr(want_h, "unstack") else want_h
                 try:
-                    a = np.asarray(got.transpose(*[d for d in ("illumination", "z", "x", "y", "point") if d in got.dims]).values).ravel()
+                    a = np.asarray(got.transpose(*[d for d in ("illumination", "z", "x", "y", "point", "flat") if d in got.dims]).values).ravel()
                     b = np.asarray(want_h.transpose(*[d for d in ("illumination", "z", "x", "y", "point", "flat") if d in want_h.dims]).values).ravel()
                     d1 = float(np.max(np.abs(a - b))) if a.shape == b.shape else float("inf")
                     wi = (np.abs(E.sel(vector=["x", "y"])) ** 2).sum(dim="vector")
-                    wi = wi.unstack("flat") if "flat" in wi.dims else wi
-                    ai = np.asarray(inten.transpose(*[d for d in ("illumination", "z", "x", "y", "point") if d in inten.dims]).values).ravel()
-                    bi = np.asarray(wi.transpose(*[d for d in ("illumination", "z", "x", "y", "point") if d in wi.dims]).values).ravel()
+                    wi = wi.unstack("flat") if ("flat" in wi.dims and "flat" not in inten.dims) else wi
+                    ai = np.asarray(inten.transpose(*[d for d in ("illumination", "z", "x", "y", "point", "flat") if d in inten.dims]).values).ravel()
+                    bi = np.asarray(wi.transpose(*[d for d in ("illumination", "z", "x", "y", "point", "flat") if d in wi.dims]).values).ravel()
                     d2 = float(np.max(np.abs(ai - bi))) / max(1e-300, float(np.max(np.abs(bi)))) if ai.shape == bi.shape else float("inf")
                 except Exception as e:
                     ctx.violation("request/compare_exception", {"req": rq, "exc": repr(e)[:300]})
                     continue
                 if d1 > 1e-12 or d2 > 1e-12:
                     bad = ("value", {"holo_defect": d1, "intensity_defect": d2})
+                elif rq["det"] == "raised_plane":
+                    # only distances matter: the plane at height 0 and the particle lowered by as much
+                    det0 = det.assign_coords(z=det.z.values - RAISE)
+                    with warnings.catch_warnings():
+                        warnings.simplefilter("ignore")
+                        h0 = calc_holo(det0, sc.translated(0.0, 0.0, -RAISE), scaling=alpha, **kw)
+                    d3 = float(np.max(np.abs(np.asarray(h0.values) - np.asarray(h.values))))
+                    if d3 > 1e-9:
+                        bad = ("raised_plane_differs_from_lowered_particle", {"defect": d3})
         if bad is None and fp.fingerprint(det) != before:
             bad = ("detector_modified", {})
         if bad:
@@ -393,7 +420,7 @@ def run(ctx):
     ctx.sample({"history_sequence": list(seqs[-1]), "catalogue": "1 large Mie, 2 small absorbing Mie (points), "
                 "3 three-sphere cluster, 4 two-sphere cluster (field), 5 large T-matrix, 6 small T-matrix "
                 "(intensity, points), 7 MieLens, 8 close pair theory=auto, 9 distant pair theory=auto, "
-                "10/11 T-matrix spheroid without/with absorption"})
+                "10/11 T-matrix spheroid without/with absorption, 12 Mie without the radial component (near field)"})
     if not quick:
         # the repository's own test-suite under the recorder: Frame and Deterministic on every
         # public call those tests make (spec/Session.tla)
